@@ -1095,3 +1095,36 @@ Proof.
   intros B R S. apply bootstrap_sound in B as (_ & _ & BH & _).
   destruct (BH t _ R S) as [E | C]; [left; rewrite <- E; reflexivity | right; exact C].
 Qed.
+
+(* ================================================================== bootstrap as an operation of the history *)
+
+(* a successful bootstrap step forgets everything that came before: the store IS the bootstrap store *)
+Theorem rebootstrap_forgets g s cp b now max_age strict :
+  is_ok (bootstrap cp b now max_age strict) = true ->
+  process_op g s (HBootstrap cp b now max_age strict) = store_of_bootstrap b /\
+  s_next (process_op g s (HBootstrap cp b now max_age strict)) = None.
+Proof.
+  cbn [process_op]. destruct (bootstrap cp b now max_age strict) as [s'| |] eqn:E; try discriminate. intros _.
+  apply bootstrap_sound in E as (_ & -> & _). split; reflexivity.
+Qed.
+
+(* a failed bootstrap step leaves the store alone *)
+Lemma failed_bootstrap_keeps g s cp b now max_age strict :
+  is_ok (bootstrap cp b now max_age strict) = false -> process_op g s (HBootstrap cp b now max_age strict) = s.
+Proof. cbn [process_op]. destruct (bootstrap cp b now max_age strict); [discriminate | reflexivity | reflexivity]. Qed.
+
+Lemma run_ops_msgs g s l : run_ops g s (map HMsg l) = run_wire g s l.
+Proof. unfold run_ops, run_wire. revert s. induction l as [|x l IH]; intros s; [reflexivity|]. cbn. apply IH. Qed.
+
+(* whatever history precedes it, after a successful bootstrap the client is exactly a freshly bootstrapped one: the messages
+   that follow run from store_of_bootstrap b, so the history-safety theorem applies with the bootstrap committee as the only root *)
+Theorem history_after_rebootstrap g s0 before cp b now max_age strict msgs :
+  is_ok (bootstrap cp b now max_age strict) = true ->
+  run_ops g s0 (before ++ HBootstrap cp b now max_age strict :: map HMsg msgs) = run_wire g (store_of_bootstrap b) msgs /\
+  trust_inv g (store_of_bootstrap b) (run_wire g (store_of_bootstrap b) msgs).
+Proof.
+  intros B. split; [|apply history_safety].
+  unfold run_ops. rewrite fold_left_app. cbn [fold_left].
+  destruct (rebootstrap_forgets g (fold_left (process_op g) before s0) cp b now max_age strict B) as [-> _].
+  apply run_ops_msgs.
+Qed.
